@@ -9,7 +9,9 @@ import (
 	"os"
 	"path/filepath"
 	"sort"
+	"strings"
 	"syscall"
+	"verif/harness/refpar2"
 
 	"github.com/akalin/gopar/par1"
 	"github.com/akalin/gopar/par2"
@@ -234,6 +236,12 @@ func runC18(args []string) error {
 				{"one-missing-one-volume", mkDisk(map[string][]byte{"c.bin": nil}), 1},
 				{"unrepairable", mkDisk(allNil), 1},
 			}
+			if fmtName == "par2" {
+				// the index file was cut at a packet boundary and lacks its last packets (the volumes repeat them): whatever
+				// a reader makes of that, an I/O failure on the way must still be reported
+				states = append(states, c18State{"short-index", mkDisk(map[string][]byte{"b.bin": nil}), nv},
+					c18State{"short-index-intact", mkDisk(nil), nv})
+			}
 			if thorough {
 				states = append(states,
 					c18State{"all-volumes-gone", mkDisk(map[string][]byte{"a.bin": flipped("a.bin")}), 0},
@@ -241,7 +249,15 @@ func runC18(args []string) error {
 			}
 			materialise := func(dir string, st c18State) (string, error) {
 				if fmtName == "par2" {
-					return filepath.Join(dir, a2.Index), a2.materialise(dir, st.disk, a2.VolFiles[:st.nvols])
+					err := a2.materialise(dir, st.disk, a2.VolFiles[:st.nvols])
+					if err == nil && strings.HasPrefix(st.name, "short-index") {
+						pk, _ := refpar2.Tokenize(a2.IndexB)
+						if len(pk) > 2 {
+							cut := pk[len(pk)-2].Off // the last two packets are gone
+							err = ioutil.WriteFile(filepath.Join(dir, a2.Index), a2.IndexB[:cut], 0644)
+						}
+					}
+					return filepath.Join(dir, a2.Index), err
 				}
 				var vols []int
 				for v := 1; v <= st.nvols; v++ {
@@ -412,7 +428,7 @@ func runC18(args []string) error {
 							failed = ""
 							completed = []string{}
 						}
-						lg.Emit(tracelog.M{"ev": "fault", "fmt": fmtName, "op": op, "state": st.name, "n": shapeN, "m": shapeM, "w": nWrites, "v": 0,
+						lg.Emit(tracelog.M{"ev": "fault", "index_usable": !strings.HasPrefix(st.name, "short-index"), "fmt": fmtName, "op": op, "state": st.name, "n": shapeN, "m": shapeM, "w": nWrites, "v": 0,
 							"calls": fio.kinds(), "k": pl.k1, "fk": pl.kd1, "pair": pl.pair, "k2": pl.k2, "fk2": pl.kd2,
 							"res":         tracelog.M{"err": res.err, "errtext": tail(res.errText, 80), "repaired": res.repaired},
 							"baseline":    tracelog.M{"err": base0.err, "errtext": tail(base0.errText, 80), "calls": len(full)},
@@ -499,7 +515,7 @@ func runC18(args []string) error {
 								same = false
 							}
 						}
-						lg.Emit(tracelog.M{"ev": "fault", "fmt": fmtName, "op": "create", "state": "fresh", "n": len(names), "m": 0, "w": 0, "v": nW - 1,
+						lg.Emit(tracelog.M{"ev": "fault", "index_usable": true, "fmt": fmtName, "op": "create", "state": "fresh", "n": len(names), "m": 0, "w": 0, "v": nW - 1,
 							"calls": fio.kinds(), "k": k, "fk": kd, "pair": false, "k2": 0, "fk2": "",
 							"res":         tracelog.M{"err": res.err, "errtext": tail(res.errText, 80), "repaired": []string{}},
 							"baseline":    tracelog.M{"err": base0.err, "errtext": "", "calls": len(full)},
